@@ -54,6 +54,7 @@ type zzC19TraceLine struct {
 	V   bool           `json:"v"`
 	OK  bool           `json:"ok"`
 	F   bool           `json:"f"`
+	X   bool           `json:"x"`
 	E   bool           `json:"e"`
 	// not read by the trace spec
 	Why  string   `json:"why,omitempty"`
@@ -94,6 +95,9 @@ type zzC19Svc struct {
 	reqs  []*dns.Msg
 	// fail makes Exchange return an error (the spec's LookupFails).
 	fail bool
+	// errReply makes Exchange answer with SERVFAIL / REFUSED / NOTIMP and no
+	// records (the spec's ErrorReply).
+	errReply bool
 }
 
 func (s *zzC19Svc) Address() (addr string) { return "zzc19.mock" }
@@ -133,6 +137,13 @@ func (s *zzC19Svc) Exchange(req *dns.Msg) (resp *dns.Msg, err error) {
 	s.reqs = append(s.reqs, req.Copy())
 	if s.fail {
 		return nil, errors.New("zzc19: lookup service: i/o timeout")
+	}
+
+	if s.errReply {
+		s.n++
+		rcodes := []int{dns.RcodeServerFailure, dns.RcodeRefused, dns.RcodeNotImplemented}
+
+		return (&dns.Msg{}).SetRcode(req, rcodes[s.n%len(rcodes)]), nil
 	}
 
 	resp = (&dns.Msg{}).SetReply(req)
@@ -413,15 +424,19 @@ func TestZZVerifC19Front(t *testing.T) {
 			host := zzC19MixCase(rng, lower)
 			svc.fail = rng.Intn(9) == 0
 			failing := svc.fail
+			// Error replies only in walks 2, 3 (mod 4), i.e. with either
+			// service, for one lookup in six.
+			svc.errReply = !failing && w%4 >= 2 && rng.Intn(6) == 0
+			errReply := svc.errReply
 			res, cerr := d.CheckHost(host, dns.TypeA, setts)
-			svc.fail = false
+			svc.fail, svc.errReply = false, false
 			prefs, qn, ok, why := svc.zzC19Observe(host, zzC19Chain(labels))
 			l := zzC19NewLine("check", w)
 			cut, opt := zzC19PSL(labels)
 			l.N = zzC19AbsName{L: labels, Cut: cut, Opt: opt, H: zzC19AbsAll(zzC19Chain(labels))}
 			l.Q, l.OK, l.Why, l.Host, l.QN, l.Via = prefs, ok, why, host, qn, via
 			l.V = res.IsFiltered && res.Reason == reason
-			l.F, l.E = failing, cerr != nil
+			l.F, l.X, l.E = failing, errReply, cerr != nil
 			if cerr != nil {
 				l.Why += " error: " + cerr.Error()
 			} else if res.IsFiltered != l.V {
